@@ -33,7 +33,7 @@ func init() {
 		Assumptions: authzAssume,
 		Models:      []string{modelSig, modelCodec, modelCtx},
 		Explanation: "NewVerifier/Add*/Authorize (with World.Run, QueryRule and symbol-table translation) executed symbolically on tokens built through the real builders; outcome class compared with an independent branch-free naive evaluator of the documented decision procedure",
-		LevelText:   "Bounded symbolic model checking of Authorize against a reference decision procedure (naive closure at authority level, per-block closure, checks as disjunctions of queries, ordered policies, check failure taking precedence) over scenario families with symbolic names and constants.",
+		LevelText:   "Bounded symbolic model checking of Authorize against a reference decision procedure (naive closure at authority level, per-block closure, checks as disjunctions of queries, ordered policies, check failure taking precedence) over scenario families with symbolic names and constants; also for an authorizer that was already asked once and then given one more fact.",
 		LevelNote:   "Unary fragment and scenario families as listed; reference evaluator is part of the trusted base (written independently of combine/World).",
 		DesignRef:   "DESIGN.md §6 authz family",
 	})
@@ -72,7 +72,7 @@ func init() {
 		},
 		Assumptions: authzAssume, Models: relModels,
 		Explanation: "two symbolic executions of Authorize share all symbolic content: token T extended with block B versus T; the solver searches for content where the child is authorized and the parent is not",
-		LevelText:   "Bounded symbolic relational model checking: for every appended block within the scenario families (facts, any rule template, any check template, colliding names/constants chosen by the solver) and every authorizer content of the family, Authorize(T+B)=nil implies Authorize(T)=nil.",
+		LevelText:   "Bounded symbolic relational model checking: for every appended block within the scenario families (facts, any rule template, any check template, colliding names/constants chosen by the solver) and every authorizer content of the family, Authorize(T+B)=nil implies Authorize(T)=nil; also for hand-written parents one of whose constants is a symbol index that nothing resolves yet (the library must refuse them or be unaffected by the symbols an appended block brings).",
 		LevelNote:   "Scenario families and unary fragment as listed in evidence.", DesignRef: "DESIGN.md §6 authz family",
 	})
 	checks = append(checks, &CheckSpec{
@@ -148,7 +148,7 @@ func init() {
 		},
 		Assumptions: authzAssume, Models: relModels,
 		Explanation: "the same symbolic content is presented twice, the second time transformed (facts / rules / checks / queries permuted, variable renamed, a fact duplicated, or Authorize called twice on one authorizer); a token with two attenuation blocks and a padded authority block evaluated one, two and three times by one authorizer against a fresh one; outcome class and derived facts compared by the solver",
-		LevelText:   "Bounded symbolic relational model checking: for each of eight presentation transformations and all symbolic names/constants of the scenario family, the outcome class and the queried fact sets are equal.",
+		LevelText:   "Bounded symbolic relational model checking: for each of nine presentation transformations, every order of a three-rule chain, and repeated evaluation of a token with two fact-adding blocks, and all symbolic names/constants of the scenario family, the outcome class and the queried fact sets are equal.",
 		LevelNote:   "Go map iteration order is not involved in the evaluated code paths (slices only); permutations are transpositions of two elements.", DesignRef: "DESIGN.md §6 authz family",
 	})
 	checks = append(checks, &CheckSpec{
@@ -168,7 +168,7 @@ func init() {
 		},
 		Assumptions: authzAssume, Models: relModels,
 		Explanation: "SerializePolicies (once or twice) -> ideal codec -> LoadPolicies into a fresh authorizer for the same or another token, then Authorize and Query on both and on the original authorizer that was saved; refusal after evaluation",
-		LevelText:   "Bounded symbolic relational model checking: the restored authorizer gives the same outcome class and query results as an authorizer loaded directly with the same content, for the same token and for a different token; SerializePolicies fails after Authorize and after Query.",
+		LevelText:   "Bounded symbolic relational model checking: the restored authorizer gives the same outcome class and query results as an authorizer loaded directly with the same content, for the same token and for a different token; SerializePolicies fails after Authorize and after Query, whether they succeeded or ended in a run-limit error.",
 		LevelNote:   "Message-level codec; malformed snapshot bytes are part of C10's hostile-message harness.", DesignRef: "DESIGN.md §6 authz family",
 	})
 }
